@@ -61,9 +61,8 @@ SET_BACKEND_INNER = [
     "if ok is not True:\n    raise AssertionError(f'backend loaders must return True or False: {ok!r}')",
 ]
 STUB_REQ = [
-    "if cls.__backend:\n    raise AssertionError(f'{cls.name}: _finalize_backend({cls.__backend!r}) failed to replace lazy loader')",
-    "cls.set_backend()",
-    "if not cls.__backend:\n    raise AssertionError(f'{cls.name}: set_backend() failed to load a default backend')",
+    "with _backend_lock:\n    if cls.__backend:\n        return\n    cls.set_backend()\n    if not cls.__backend:\n"
+    "        raise AssertionError(f'{cls.name}: set_backend() failed to load a default backend')",
 ]
 HMB_STUB = ["self._stub_requires_backend()", "return self._calc_checksum_backend(secret)"]
 HMB_CALC = ["return self._calc_checksum_backend(secret)"]
